@@ -18,6 +18,7 @@ RULE = ('Certified-solvable BlockSpecs (sup-norm contraction factor of every row
         'compared: same key set; k=0 values equal exactly; k>=1 within 40*tol*max(1,|x|)/(1-q). '
         'Non-trivial: at least one alias and at least one variable that reduction moves (alias or leaf), and at least '
         'one variable referencing an alias. Distinct: sha1 of the spec.')
+RULE = RULE + (' Input shapes added after the seeded-change rounds (DESIGN.md section 8): ' + 'near-aliases (x = -y, x = (y)), context variables using an alias inside powers / products / quotients / unary minus, decorative variables that are undefined at k=0 only (log(abs(x)+k)).')
 ASSUMPTIONS = [
     'pure alias cycles (x=y, y=x) are excluded: documented user error',
     'a ConvergenceError in either setting makes the pair incomparable (counted as rejected); any other exception in '
